@@ -38,6 +38,8 @@ enum Places {
     Two,
     /// the 2^(n-1) placements with node 0 in `pkg`
     Node0Pkg,
+    /// odd positions in `pkg.m`
+    Alternating,
 }
 
 impl Places {
@@ -46,6 +48,7 @@ impl Places {
             Places::All => 1 << n,
             Places::Two => 2,
             Places::Node0Pkg => 1 << (n - 1),
+            Places::Alternating => 1,
         }
     }
     fn get(self, n: usize, idx: u64) -> u32 {
@@ -53,6 +56,7 @@ impl Places {
             Places::All => idx as u32,
             Places::Two => [0u32, 0b01010 & ((1 << n) - 1)][idx as usize],
             Places::Node0Pkg => (idx as u32) << 1,
+            Places::Alternating => 0b01010 & ((1 << n) - 1),
         }
     }
     fn name(self) -> &'static str {
@@ -60,6 +64,7 @@ impl Places {
             Places::All => "all 2^n",
             Places::Two => "all in pkg; odd positions in pkg.m",
             Places::Node0Pkg => "the 2^(n-1) placements with node 0 in pkg",
+            Places::Alternating => "odd positions in pkg.m",
         }
     }
 }
@@ -192,7 +197,8 @@ fn slices(tier: Tier) -> Vec<Slice> {
             push(Family::Dag, 4, &all_forms, Places::All);
             push(Family::Cycle, 4, &[model::F_BARE, model::F_HELPER], Places::Two);
             push(Family::Ctx, 4, &[model::F_BARE, model::F_HELPER], Places::Two);
-            push(Family::Dag, 5, &[model::F_BARE], Places::Two);
+            // (budget: one placement; 29 281 DAGs x 32 kinds = 937 k programs)
+            push(Family::Dag, 5, &[model::F_BARE], Places::Alternating);
         }
     }
     v
